@@ -25,6 +25,30 @@ class _AbortPath(BaseException):
   """Path is infeasible / cut by an assumption. BaseException on purpose."""
 
 
+class _Diverged(BaseException):
+  """Forced re-execution left the recorded decision sequence."""
+
+
+class _Found(BaseException):
+
+  def __init__(self, neg):
+    self.neg = neg
+
+
+def _site():
+  """Call site of a decision: the frames outside symx (stable across back
+  ends, used to align forced re-execution with the recorded decisions)."""
+  import sys
+  f = sys._getframe(1)
+  out = []
+  while f is not None and len(out) < 6:
+    fn = f.f_code.co_filename
+    if '/symx/' not in fn and not fn.startswith('/tmp/'):
+      out.append((fn, f.f_lineno))
+    f = f.f_back
+  return tuple(out)
+
+
 def _simp(e):
   if isinstance(e, bool):
     return z3.BoolVal(e)
@@ -104,6 +128,12 @@ class Engine:
     self._pc = []
     self._fresh = 0
     self._model = None
+    self._forced = None
+    self._forced_sites = []
+    self._sites = []
+    self._guess = []
+    self._unmatched = 0
+    self._check_index = 0
 
   # ---- variable creation -------------------------------------------------
   def fresh_name(self, base):
@@ -146,6 +176,8 @@ class Engine:
 
   def _add(self, e):
     self._pc.append(e)
+    if self._forced is not None:
+      return
     self._solver.add(e)
     if self._model is not None:
       try:
@@ -162,6 +194,9 @@ class Engine:
       return
     if z3.is_false(c):
       raise _AbortPath()
+    if self._forced is not None:
+      self._pc.append(c)
+      return
     r, _ = self._check(c)
     if r == 'unsat':
       raise _AbortPath()
@@ -171,15 +206,42 @@ class Engine:
 
   def decide(self, cond) -> bool:
     c = _simp(cond)
-    if z3.is_true(c):
-      return True
-    if z3.is_false(c):
-      return False
+    if z3.is_true(c) or z3.is_false(c):
+      val = z3.is_true(c)
+      if self._forced is not None:
+        # was this decision recorded (non-constant) in the exploring run?
+        i = len(self._trace)
+        if (i < len(self._prefix) and i < len(self._forced_sites)
+            and self._forced_sites[i] == _site()
+            and isinstance(self._prefix[i], bool)):
+          self._trace.append(self._prefix[i])
+          if self._prefix[i] != val:
+            self._pc.append(z3.BoolVal(False))  # infeasible bit-precisely
+            return self._prefix[i]
+      return val
     i = len(self._trace)
     if i >= self.max_decisions:
       raise Inconclusive(f'decision depth cap {self.max_decisions} reached '
                          '(unwinding assertion)')
     self.stats.decisions += 1
+    if self._forced is not None:
+      matched = (i < len(self._prefix) and isinstance(self._prefix[i], bool)
+                 and (i >= len(self._forced_sites)
+                      or self._forced_sites[i] == _site()))
+      if matched:
+        v = self._prefix[i]
+        self._trace.append(v)
+      else:
+        # a decision the exploring back end did not record (its condition was
+        # constant there): guessed, with backtracking in concretize()
+        k = self._unmatched
+        self._unmatched += 1
+        v = self._guess[k] if k < len(self._guess) else True
+        if k >= len(self._guess):
+          self._guess.append(True)
+      self._pc.append(c if v else z3.Not(c))
+      return v
+    self._sites.append(_site())
     if i < len(self._prefix):
       v = self._prefix[i]
       if not isinstance(v, bool):
@@ -242,6 +304,13 @@ class Engine:
     if i >= self.max_decisions:
       raise Inconclusive('decision depth cap reached (unwinding assertion)')
     self.stats.decisions += 1
+    if self._forced is not None:
+      if i >= len(self._prefix) or isinstance(self._prefix[i], bool):
+        raise _Diverged()
+      self._trace.append(self._prefix[i])
+      self._pc.append(e == self._prefix[i][0])
+      return self._prefix[i][0]
+    self._sites.append(_site())
     if i < len(self._prefix):
       v = self._prefix[i]
       if isinstance(v, bool):
@@ -282,6 +351,11 @@ class Engine:
     self.stats.reached[name] = self.stats.reached.get(name, 0) + 1
 
   def witness(self, name, formula=True, optional=False):
+    if self._forced is not None:
+      return True
+    return self._witness(name, formula, optional)
+
+  def _witness(self, name, formula=True, optional=False):
     """Vacuity guard: pc AND formula must be satisfiable (twin assert(false)).
 
     optional: a stronger "interesting region is reachable" witness; if the
@@ -311,9 +385,14 @@ class Engine:
     this path) instead of the whole path condition -- sound, and keeps the
     query in a cheap theory fragment.
     """
-    self.stats.obligations += 1
+    self._check_index += 1
     f = formula.z if isinstance(formula, SymBool) else formula
     f = _simp(f)
+    if self._forced is not None:
+      if self._check_index == self._forced[1]:
+        raise _Found(z3.Not(f))
+      return True
+    self.stats.obligations += 1
     if z3.is_true(f):
       self.stats.discharged += 1
       return True
@@ -346,9 +425,11 @@ class Engine:
       self.inconclusive.append(f'unknown: {name}')
       return None
     vals = self.model_values(m)
-    self.violations.append(
-        Violation(name, vals, info() if callable(info) else info,
-                  list(self._trace)))
+    v = Violation(name, vals, info() if callable(info) else info,
+                  list(self._trace))
+    v.check_index = self._check_index
+    v.sites = list(self._sites)
+    self.violations.append(v)
     return False
 
   def model_values(self, m):
@@ -388,8 +469,10 @@ class Engine:
           saved = (copy.deepcopy(self.stats), len(self.violations),
                    len(self.inconclusive))
         self._trace = []
+        self._sites = []
         self._pc = []
         self._model = None
+        self._check_index = 0
         self._fresh = 0
         self.inputs = {}
         self._solver = (z3.Solver() if self.logic is None
@@ -420,6 +503,59 @@ class Engine:
       Engine.current = prev
       self._solver = None
     return self
+
+  def concretize(self, harness, violation, timeout_ms=120000):
+    """Re-executes `harness` (typically the same harness under a bit-precise
+    back end) along the recorded decisions of `violation` without feasibility
+    checks and asks once for a model of path condition AND NOT obligation.
+
+    Returns ('sat', values) | ('unsat', None) | ('unknown', None) |
+    ('diverged', None).
+    """
+    prev = Engine.current
+    Engine.current = self
+    self._forced = (violation.name, violation.check_index)
+    self._forced_sites = list(getattr(violation, 'sites', []))
+    self._prefix = list(violation.path)
+    self._solver = None
+    pending = [[]]
+    tries = 0
+    last = 'diverged'
+    try:
+      while pending and tries < 12:
+        tries += 1
+        self._guess = list(pending.pop())
+        n_fixed = len(self._guess)
+        self._unmatched = 0
+        self._sites = []
+        self._trace, self._pc, self._fresh, self._check_index = [], [], 0, 0
+        self.inputs = {}
+        self._model = None
+        try:
+          harness(self)
+          last = 'diverged'
+        except _Found as f:
+          s = z3.Solver()
+          s.set('timeout', timeout_ms)
+          for x in self._pc:
+            s.add(x)
+          s.add(f.neg)
+          t0 = time.time()
+          r = str(s.check())
+          self.stats.solver_calls += 1
+          self.stats.solver_time += time.time() - t0
+          if r == 'sat':
+            return 'sat', self.model_values(s.model())
+          last = r if last != 'unknown' else last
+        except (_Diverged, _AbortPath):
+          last = 'diverged' if last == 'diverged' else last
+        # alternatives for the guessed decisions of this run
+        for j in range(len(self._guess) - 1, n_fixed - 1, -1):
+          pending.append(self._guess[:j] + [False])
+      return last, None
+    finally:
+      self._forced = None
+      Engine.current = prev
 
   @property
   def ok(self):
